@@ -81,57 +81,79 @@ def generate(tier):
 def check(v, tier, only=None):
     binary = xp.build_xp()
     xp.init_canon(binary)
-    reqs = list(generate(tier))
-    if only:
-        reqs = [q for q in reqs if 'C15|%s|%s|%s|+%s|o%d|%s' % (q[0].code(), q[1] + ('+' + K.PARTNER[q[1]] if q[2] else ''), q[3].key, '+'.join(c.key for c in q[4]), q[5], q[6]) == only]
-    alone_src = {}
-    inputs = []
-    for (shape, g, partner, cg, cfgs, order, split) in reqs:
-        ak = (shape.code(), g, partner, cg.key)
-        if ak not in alone_src:
-            alone_src[ak] = K.render(shape, cg)
-        merged = K.merge([cg] + cfgs) if order == 0 else K.merge(cfgs + [cg])
-        inputs.append(K.render(shape, merged, split))
-    akeys = list(alone_src)
-    ares = dict(zip(akeys, xp.expand_all(binary, [alone_src[k] for k in akeys])))
-    res = xp.expand_all(binary, inputs)
     from .. import realmacro
-    if not only:
-        realmacro.conformance(v, binary, [alone_src[k] for k in akeys] + inputs[::7], [ares[k] for k in akeys] + res[::7], limit=6000 if tier == 'quick' else 40000)
+    gen = generate(tier)
+    alone_src, ares = {}, {}
     states = set()
     nontriv = 0
     classes = set()
-    for req, src, r in zip(reqs, inputs, res):
-        (shape, g, partner, cg, cfgs, order, split) = req
-        ak = (shape.code(), g, partner, cg.key)
-        a = ares[ak]
-        key = 'C15|%s|%s|%s|+%s|o%d|%s' % (shape.code(), g + ('+' + K.PARTNER[g] if partner else ''), cg.key, '+'.join(c.key for c in cfgs), order, split)
-        if key in states:
-            continue
-        states.add(key)
-        v.cov['evaluations'] += 1
-        if a['st'] != 'ok':
-            classes.add('own-refused')
-            continue    # the stand-alone request is itself refused: nothing to compare (acceptance is C01/C13's business)
-        case = Case(key, '// stand-alone:\n' + alone_src[ak] + '\n// combined:\n' + src, {'shape': shape.code(), 'group': g, 'own': cg.key,
-                                                                                       'others': [c.key for c in cfgs]}, run=False, depth=len(cfgs))
-        v.cov['traces_validated_against_impl'] += 1
-        if r['st'] != 'ok':
-            v.violation(case, 'the stand-alone request expands, but with other traits added it ends as %s: %s' % (r['st'], r.get('msg', '')[:200]))
-            continue
-        oa, oc = own_items(a, g, partner), own_items(r, g, partner)
-        classes.add('compared')
-        if len(r.get('items', [])) > len(oc):
-            nontriv += 1
-        if not oa:
-            v.violation(case, 'the stand-alone expansion contains no item for %s' % g)
-        elif oa != oc:
-            v.violation(case, 'the items generated for %s differ when other traits are present:\n alone:    %s\n combined: %s' % (g, oa[:2], oc[:2]))
+    total_transitions = 0
+    conf_inputs, conf_res = [], []
+    sample_every = 0
+    CHUNK = 120000
+    while True:
+        reqs = list(itertools.islice(gen, CHUNK))
+        if not reqs:
+            break
+        if only:
+            reqs = [q for q in reqs if 'C15|%s|%s|%s|+%s|o%d|%s' % (q[0].code(), q[1] + ('+' + K.PARTNER[q[1]] if q[2] else ''), q[3].key, '+'.join(c.key for c in q[4]), q[5], q[6]) == only]
+            if not reqs:
+                continue
+        inputs = []
+        new_alone = []
+        for (shape, g, partner, cg, cfgs, order, split) in reqs:
+            ak = (shape.code(), g, partner, cg.key)
+            if ak not in alone_src:
+                alone_src[ak] = K.render(shape, cg)
+                new_alone.append(ak)
+            merged = K.merge([cg] + cfgs) if order == 0 else K.merge(cfgs + [cg])
+            inputs.append(K.render(shape, merged, split))
+        if new_alone:
+            ares.update(zip(new_alone, xp.expand_all(binary, [alone_src[k] for k in new_alone])))
+        res = xp.expand_all(binary, inputs)
+        if not only and len(conf_inputs) < 60000:
+            conf_inputs += [alone_src[k] for k in new_alone] + inputs[::7]
+            conf_res += [ares[k] for k in new_alone] + res[::7]
+        for req, src, r in zip(reqs, inputs, res):
+            (shape, g, partner, cg, cfgs, order, split) = req
+            ak = (shape.code(), g, partner, cg.key)
+            a = ares[ak]
+            key = 'C15|%s|%s|%s|+%s|o%d|%s' % (shape.code(), g + ('+' + K.PARTNER[g] if partner else ''), cg.key, '+'.join(c.key for c in cfgs), order, split)
+            hk = hash(key)
+            if hk in states:
+                continue
+            states.add(hk)
+            total_transitions += 1 + len(cfgs)
+            v.cov['evaluations'] += 1
+            if a['st'] != 'ok':
+                classes.add('own-refused')
+                continue    # the stand-alone request is itself refused: nothing to compare (acceptance is C01/C13's business)
+            v.cov['traces_validated_against_impl'] += 1
+            if len(v.cov['samples']) < 5 and v.cov['evaluations'] % 30011 == 1:
+                v.sample({'group': g, 'own': cg.key, 'others': [c.key for c in cfgs], 'input': src})
+            bad = None
+            if r['st'] != 'ok':
+                bad = 'the stand-alone request expands, but with other traits added it ends as %s: %s' % (r['st'], r.get('msg', '')[:200])
+            else:
+                oa, oc = own_items(a, g, partner), own_items(r, g, partner)
+                classes.add('compared')
+                if len(r.get('items', [])) > len(oc):
+                    nontriv += 1
+                if not oa:
+                    bad = 'the stand-alone expansion contains no item for %s' % g
+                elif oa != oc:
+                    bad = 'the items generated for %s differ when other traits are present:\n alone:    %s\n combined: %s' % (g, oa[:2], oc[:2])
+            if bad:
+                case = Case(key, '// stand-alone:\n' + alone_src[ak] + '\n// combined:\n' + src, {'shape': shape.code(), 'group': g, 'own': cg.key,
+                                                                                                 'others': [c.key for c in cfgs]}, run=False, depth=len(cfgs))
+                v.violation(case, bad)
+    if not only and conf_inputs:
+        realmacro.conformance(v, binary, conf_inputs, conf_res, limit=6000 if tier == 'quick' else 40000)
     v.cov['states'] = len(states)
-    v.cov['transitions'] = sum(1 + len(r_[4]) for r_ in reqs)
+    v.cov['transitions'] = total_transitions
     v.cov['distinct_nontrivial'] = nontriv
-    for req, src in (list(zip(reqs, inputs))[::max(1, len(reqs) // 5)][:5] if reqs else []):
-        v.sample({'group': req[1], 'own': req[3].key, 'others': [c.key for c in req[4]], 'input': src})
+    if not v.cov['samples']:
+        v.sample({'note': 'replay of a single state' if only else 'no sample'})
     guard(only or nontriv * 2 >= len(states), 'too few combined expansions contained other traits\' items')
     guard(only or 'compared' in classes, 'nothing compared')
     return v.finish('shapes {named/tuple struct, two enums, union; thorough: + unit struct, 3-variant enum with a unit variant, generic struct and enum} x trait '
